@@ -21,7 +21,7 @@
    modelled -- they enter as [Pw] with the assumption HP, and are covered by the oracle
    runs of bin/check C12 only.  Other Krylov methods: rank-consistency oracle only. *)
 From Amgcl Require Import Scalar QcInst Vec Crs Kernels KernelsProofs MatOps Dist DistProofs Krylov KrylovProofs
-                          DistSolve DistSolveProofs.
+                          DistSolve DistSolveProofs DistSolveTruth.
 From Coq Require Import QArith_base Qcanon.
 Local Close Scope Q_scope.
 Local Close Scope Qc_scope.
@@ -56,6 +56,40 @@ Proof.
   intros Hn HA HP. exact (wcg_run_spec Srt parts Hn Aw Pw Aser Pser HA HP prm Fs Xs0 junk sjunk).
 Qed.
 
+(* the same for the rank-lifted Richardson iteration (amgcl/solver/richardson.hpp) *)
+Theorem C12_rank_lifted_richardson (parts : list nat) (Aw Pw : list (vec S) -> list (vec S)) (Aser Pser : vec S -> vec S)
+        prm (Fs Xs0 junk_s : list (vec S)) (sjunk : @ri_ws S) :
+  0 < length parts ->
+  (forall Xs, shape parts Xs -> shape parts (Aw Xs) /\ concat (Aw Xs) = Aser (concat Xs)) ->
+  (forall Xs, shape parts Xs -> shape parts (Pw Xs) /\ concat (Pw Xs) = Pser (concat Xs)) ->
+  shape parts Fs -> shape parts Xs0 ->
+  exists r res,
+    fst (richardson Aser Pser prm (concat Fs) (concat Xs0) sjunk) = KOk r /\
+    wri_run Aw Pw prm Fs Xs0 junk_s = Some res /\
+    map (@k_it S) res = repeat (k_it r) (length parts) /\
+    map (@k_res S) res = repeat (k_res r) (length parts) /\
+    shape parts (map (@k_x S) res) /\
+    concat (map (@k_x S) res) = k_x r.
+Proof.
+  intros Hn HA HP. exact (wri_run_spec Srt parts Hn Aw Pw Aser Pser HA HP prm Fs Xs0 junk_s sjunk).
+Qed.
+
+(* truthfulness of the rank-lifted Richardson: on every rank the reported residual is the true relative
+   residual of the assembled iterate (C01 richardson_residual_truthful: the residual is recomputed) *)
+Theorem C12_distributed_richardson_truthful (A : crs S) (parts : list nat)
+        (Pw : list (vec S) -> list (vec S)) (Pser : vec S -> vec S)
+        prm (Fs Xs0 junk_s : list (vec S)) (sjunk : @ri_ws S) nr :
+  0 < length parts ->
+  wf A = true -> psum parts = nrows A -> psum parts = ncols A ->
+  (forall Xs, shape parts Xs -> shape parts (Pw Xs) /\ concat (Pw Xs) = Pser (concat Xs)) ->
+  shape parts Fs -> shape parts Xs0 ->
+  k_prologue norm_a prm (concat Fs) = Go nr ->
+  exists res,
+    wri_run (dist_op A parts) Pw prm Fs Xs0 junk_s = Some res /\
+    forall k, In k res ->
+      k_res k = (true_res norm_a (serial_op A) Pser false (concat Fs) (concat (map (@k_x S) res)) / nr)%S.
+Proof. exact (distributed_richardson_truthful S Srt Seqb A parts Pw Pser prm Fs Xs0 junk_s sjunk nr). Qed.
+
 (* the distributed matrix of C11 satisfies the operator hypothesis, for every partition *)
 Theorem C12_distributed_matrix_is_world_operator (A : crs S) (parts : list nat) :
   wf A = true -> psum parts = nrows A -> psum parts = ncols A ->
@@ -84,37 +118,12 @@ Theorem C12_distributed_cg_truthful (A : crs S) (parts : list nat)
     forall k, In k res ->
       k_res k = (true_res norm_a (serial_op A) Pser false (concat Fs) (concat (map (@k_x S) res)) / nr)%S /\
       k_it k <= p_maxiter prm.
-Proof.
-  intros Hn Hwf Hr Hc HP HPlen SF SX Ss Sp Sq Cs Cp Cq Hpro.
-  assert (Hc' : psum parts = ncols A) by congruence.
-  destruct (wcg_run_spec Srt parts Hn (dist_op A parts) Pw (serial_op A) Pser
-              (dist_op_is_world_op Srt Seqb A parts Hwf Hr Hc') HP prm Fs Xs0 junk sjunk
-              SF SX Ss Sp Sq Cs Cp Cq) as [r [res [Hcg [Hrun [Hit [Hres [Hsh Hx]]]]]]].
-  exists res. split; [exact Hrun|].
-  assert (Hlen : length res = length parts).
-  { rewrite <- (map_length (@k_it S) res), Hit. apply repeat_length. }
-  split; [exact Hlen|].
-  assert (Lf : length (concat Fs) = nrows A).
-  { rewrite <- Hr. clear -SF. unfold shape in SF. subst parts. induction Fs as [|x Xs IH]; simpl; [reflexivity|].
-    rewrite app_length, IH. reflexivity. }
-  assert (Lx : length (concat Xs0) = nrows A).
-  { rewrite <- Hr. clear -SX. unfold shape in SX. subst parts. induction Xs0 as [|x Xs IH]; simpl; [reflexivity|].
-    rewrite app_length, IH. reflexivity. }
-  destruct (cg (serial_op A) Pser prm (concat Fs) (concat Xs0) sjunk) as [o w] eqn:Ecg. simpl in Hcg. subst o.
-  destruct (cg_residual_truthful Srt Seqb (nrows A) (serial_op A) Pser
-              (fun v _ => mat_op_len A v) HPlen (mat_op_linear Srt Seqb A Hwf Hc)
-              prm (concat Fs) (concat Xs0) sjunk nr r w Lf Lx Hpro Ecg) as [Htrue _].
-  pose proof (cg_iters_le_maxiter (serial_op A) Pser prm (concat Fs) (concat Xs0) sjunk r w Ecg) as Hle.
-  intros k Hk.
-  assert (Hk1 : k_res k = k_res r).
-  { pose proof (in_map (@k_res S) res k Hk) as H1. rewrite Hres in H1. apply repeat_spec in H1. exact H1. }
-  assert (Hk2 : k_it k = k_it r).
-  { pose proof (in_map (@k_it S) res k Hk) as H1. rewrite Hit in H1. apply repeat_spec in H1. exact H1. }
-  rewrite Hk1, Hk2, Hx. split; [exact Htrue | exact (proj1 Hle)].
-Qed.
+Proof. exact (distributed_cg_truthful S Srt Seqb A parts Pw Pser prm Fs Xs0 junk sjunk nr). Qed.
 End Ring.
 Print Assumptions C12_rank_lifted_cg.
 Print Assumptions C12_distributed_cg_truthful.
+Print Assumptions C12_rank_lifted_richardson.
+Print Assumptions C12_distributed_richardson_truthful.
 
 (* closed instance at the exact rationals *)
 Theorem C12_rank_lifted_cg_Qc (parts : list nat) (Aw Pw : list (vec QcS) -> list (vec QcS)) (Aser Pser : vec QcS -> vec QcS)
